@@ -34,6 +34,44 @@ type Base struct {
 	Reuse bool `json:"reuse,omitempty"`
 	// ZeroRecv: the value is set into a zero-value struct (`new(secp256k1.Element)`) rather than into NewElement().
 	ZeroRecv bool `json:"zero_recv,omitempty"`
+	// Home > 0: where the finished object lives (a Go value copy into a slice element, a struct field, an array in a struct)
+	Home int `json:"home,omitempty"`
+	// RHS (kind "rhs"): the abscissa is SOLVED so that the right-hand side x^3 + 7 of the curve equation, as the Montgomery limbs the
+	// code holds, is the first suitable value at or below this target (boundary patterns: just below p, word boundaries ...)
+	RHS string `json:"rhs,omitempty"`
+}
+
+// SolveRHS returns a point whose x^3 + 7, in Montgomery form, is the largest value <= target for which a point exists.
+func SolveRHS(target *big.Int) (ref.Point, bool) {
+	t := new(big.Int).Mod(target, ref.P)
+	for i := 0; i < 400; i++ {
+		v := new(big.Int).Mod(new(big.Int).Mul(t, rPInv), ref.P) // canonical value whose Montgomery form is t
+		if ref.IsSquare(v) {
+			if x := cubeRootP(new(big.Int).Mod(new(big.Int).Sub(v, big.NewInt(7)), ref.P)); x != nil {
+				if even, _, ok := ref.LiftX(x); ok {
+					return even, true
+				}
+			}
+		}
+		t.Sub(t, one)
+		if t.Sign() < 0 {
+			t.Add(t, ref.P)
+		}
+	}
+	return ref.Point{}, false
+}
+
+// cubeRootP returns a cube root of a in F_p (p = 7 mod 9), or nil.
+func cubeRootP(a *big.Int) *big.Int {
+	e := new(big.Int).Div(new(big.Int).Add(ref.P, big.NewInt(2)), big.NewInt(9))
+	r := new(big.Int).Exp(a, e, ref.P)
+	for i := 0; i < 3; i++ {
+		if c := new(big.Int).Exp(r, big.NewInt(3), ref.P); c.Cmp(new(big.Int).Mod(a, ref.P)) == 0 {
+			return r
+		}
+		r.Mul(r, ref.Beta).Mod(r, ref.P)
+	}
+	return nil
 }
 
 // Step is one value-preserving representation change.
@@ -73,6 +111,15 @@ func (b Base) Point() ref.Point {
 			}
 			x.Add(x, one)
 			x.Mod(x, ref.P)
+		}
+	case "rhs":
+		q, ok := SolveRHS(gen.B(b.RHS))
+		if !ok {
+			q = ref.G()
+		}
+		p = q
+		if b.Odd {
+			p = ref.Neg(q)
 		}
 	case "line-p", "line-q":
 		// two distinct points P, Q on a common line of slope K through P = lift_x(first suitable x >= X)
@@ -473,6 +520,33 @@ func apply(e *secp256k1.Element, st Step, cur ref.Point) (*secp256k1.Element, er
 }
 
 // Build carries out the specification.
+type elementBox struct {
+	pad [5]uint64
+	E   secp256k1.Element
+	tag byte
+	A   [2]secp256k1.Element
+}
+
+// rehome moves the value of e (Go value copy) into an element of a slice, a field of a larger struct or an array inside one:
+// methods must not care where their receiver lives.
+func rehome(e *secp256k1.Element, home int) *secp256k1.Element {
+	switch home {
+	case 1:
+		arr := make([]secp256k1.Element, 3)
+		arr[1] = *e
+		return &arr[1]
+	case 2:
+		b := &elementBox{}
+		b.E = *e
+		return &b.E
+	case 3:
+		b := &elementBox{}
+		b.A[1] = *e
+		return &b.A[1]
+	}
+	return e
+}
+
 func Build(s Spec) (*Built, error) {
 	want := s.Base.Point()
 	recv := secp256k1.NewElement()
@@ -491,7 +565,7 @@ func Build(s Spec) (*Built, error) {
 			return nil, err
 		}
 	}
-	return Inspect(e, want), nil
+	return Inspect(rehome(e, s.Base.Home), want), nil
 }
 
 // ---------------------------------------------------------------------------------------------------
@@ -571,6 +645,18 @@ func BaseGen() *rapid.Generator[Base] {
 		b.Via = rapid.SampledFrom([]string{"coords", "comp", "uncomp", "limbs"}).Draw(t, "via")
 		b.Reuse = gen.Chance(t, "reuse", 1, 4)
 		b.ZeroRecv = !b.Reuse && gen.Chance(t, "zeroRecv", 1, 5)
+		if gen.Chance(t, "home", 1, 6) {
+			b.Home = 1 + gen.Pick(t, "homeKind", 3)
+		}
+		if gen.Chance(t, "rhs", 1, 12) {
+			// the Montgomery limbs of x^3 + 7: just below p, or a boundary-biased value
+			b.Kind = "rhs"
+			tgt := new(big.Int).Sub(ref.P, new(big.Int).SetUint64(1+gen.U64(t, "rhsBelow")>>uint(rapid.IntRange(40, 63).Draw(t, "rhsSh"))))
+			if rapid.Bool().Draw(t, "rhsAny") {
+				tgt = gen.Int(ref.P).Draw(t, "rhsT")
+			}
+			b.RHS = gen.H(tgt)
+		}
 		return b
 	})
 }
